@@ -211,6 +211,20 @@ def _is_call_text(src):
         return False
 
 
+def _neighbour_loop(V, lp):
+    """(name of the neighbour, collection of the neighbours) of an inner loop over the neighbours of an element, through enumerate / list /
+    reversed wrappers (`for i, nb in enumerate(adj, start=k + 1)`)"""
+    it, tgt = lp.iter, lp.target
+    for _ in range(3):
+        if isinstance(it, ast.Call) and isinstance(it.func, ast.Name) and it.func.id == "enumerate" and it.args and isinstance(tgt, ast.Tuple) and len(tgt.elts) == 2:
+            it, tgt = it.args[0], tgt.elts[1]
+        elif isinstance(it, ast.Call) and isinstance(it.func, ast.Name) and it.func.id in ("list", "tuple", "reversed", "sorted", "iter") and len(it.args) == 1:
+            it = it.args[0]
+        else:
+            break
+    return (tgt.id if isinstance(tgt, ast.Name) else None), it
+
+
 def nested_with_entries(path):
     return [x for x in path.loops if any(q.entries for q in x[2])]
 
@@ -258,9 +272,10 @@ def analyse_unit(ctx, rule_real, rule_cplx, modname, fn, V, loop, paths, antisym
                     v = vals.poly(e.val, e.node)
                     if not v.is_const():
                         unclear.append("a neighbour entry has a value depending on the pair: symmetry cannot follow from the symmetry of the adjacency")
-                    if not isinstance(lp.target, ast.Name) or au.src(e.col) != lp.target.id or lp.target.id in au.names(e.row):
+                    nb_name, nb_iter = _neighbour_loop(V, lp)
+                    if nb_name is None or au.src(e.col) != nb_name or nb_name in au.names(e.row):
                         unclear.append("a neighbour entry is not (element, neighbour)")
-                    cnt = Poly.atom("len(" + au.src(vals.b.resolve(lp.iter, at=lp)) + ")")
+                    cnt = Poly.atom("len(" + au.src(vals.b.resolve(nb_iter, at=lp)) + ")")
                     rows.setdefault(au.norm(e.row), Poly())
                     rows[au.norm(e.row)] = rows[au.norm(e.row)] + v * cnt
         for r, p in rows.items():
@@ -634,6 +649,13 @@ def _edge_loop(F, loop):
     ends = next(iter(L.rows.values()), [])
     if len(idx) != 1:
         return None
+    if not ends:
+        # for e in mesh.id_edges: a, b = mesh.edges[e]
+        for s_ in loop.body:
+            if isinstance(s_, ast.Assign) and len(s_.targets) == 1 and isinstance(s_.targets[0], ast.Tuple) and len(s_.targets[0].elts) == 2 \
+                    and all(isinstance(x, ast.Name) for x in s_.targets[0].elts) and isinstance(s_.value, ast.Subscript) \
+                    and au.chain(s_.value.value) and au.chain(s_.value.value)[-1] == "edges" and au.src(s_.value.slice) == idx[0]:
+                ends = [x.id for x in s_.targets[0].elts]
     return idx[0], [x for x in ends if x]
 
 
@@ -764,6 +786,36 @@ def element_loop(F, loop, container):
     return idx, rows
 
 
+def _component(V, e):
+    """a name bound by  a, b = (x, y) if cond else (u, v)  is the conditional expression of its own component"""
+    if not isinstance(e, ast.Name):
+        return e
+    hits = []
+    for s_ in au.stmts(V.body):
+        if isinstance(s_, ast.Assign) and len(s_.targets) == 1 and isinstance(s_.targets[0], (ast.Tuple, ast.List)) and isinstance(s_.value, ast.IfExp):
+            names = [x.id if isinstance(x, ast.Name) else None for x in s_.targets[0].elts]
+            v = s_.value
+            if e.id in names and all(isinstance(x, (ast.Tuple, ast.List)) and len(x.elts) == len(names) for x in (v.body, v.orelse)):
+                i = names.index(e.id)
+                hits.append(ast.IfExp(test=v.test, body=v.body.elts[i], orelse=v.orelse.elts[i]))
+        elif sym.Bindings._assigns(s_, e.id, deep=False):
+            hits.append(None)
+    return hits[0] if len(hits) == 1 and hits[0] is not None else e
+
+
+def _data_guards(V, st, loop):
+    """guards of a store inside the loop that depend on the data of the iteration (a test on the options of the function alone selects a
+    mode, it does not skip elements)"""
+    ps = set(au.params(V))
+    b = sym.Bindings(V)
+    out = []
+    for t, pol in au.guards(st, stop=loop):
+        r = b.resolve(t, at=st)
+        if not (au.names(r) <= ps | {"isinstance", "str", "dict", "bool", "None"}):
+            out.append(t)
+    return out
+
+
 def _adjacency_layouts(ctx, fn, V, site, F, arrays, ctor):
     """layout of rows / cols / values of adjacency_matrix, read from per-edge loops or from vectorised expressions"""
     d, r, c = arrays
@@ -773,9 +825,11 @@ def _adjacency_layouts(ctx, fn, V, site, F, arrays, ctor):
     # ---- per-edge loop stores  arr[2*e + k] = endpoint
     loop_stores = {d: [], r: [], c: []}
     for s in au.stmts(V.body):
-        if isinstance(s, ast.Assign) and len(s.targets) == 1:
-            t, v = s.targets[0], s.value
-            pairs = list(zip(t.elts, v.elts)) if isinstance(t, ast.Tuple) and isinstance(v, ast.Tuple) and len(t.elts) == len(v.elts) else [(t, v)]
+        if isinstance(s, ast.Assign):
+            pairs = []
+            for t in s.targets:
+                v = s.value
+                pairs += list(zip(t.elts, v.elts)) if isinstance(t, ast.Tuple) and isinstance(v, ast.Tuple) and len(t.elts) == len(v.elts) else [(t, v)]
             for tt, vv in pairs:
                 if isinstance(tt, ast.Subscript) and isinstance(tt.value, ast.Name) and tt.value.id in loop_stores and not isinstance(tt.slice, ast.Slice):
                     lp = next((a for a in au.ancestors(s) if isinstance(a, ast.For)), None)
@@ -786,7 +840,7 @@ def _adjacency_layouts(ctx, fn, V, site, F, arrays, ctor):
             for s, tt, vv, lp in loop_stores[arr]:
                 el = _edge_loop(F, lp) if lp is not None else None
                 sl = _slot(b.resolve(tt.slice, at=s, keep=(el[0],)), el[0]) if el else None
-                if not el or sl is None or au.guards(s, stop=lp):
+                if not el or sl is None or _data_guards(V, s, lp):
                     und.append(f"a store into `{arr}` is not read as an unconditional store at slot 2*e+k of a loop over the edges")
                     continue
                 val = b.resolve(vv, at=s, keep=tuple(el[1]))
@@ -888,7 +942,7 @@ def s3_adjacency(ctx):
                 sl = {}
                 for s, tt, vv, _ in g:
                     k = _slot(b.resolve(tt.slice, at=s, keep=(el[0],)), el[0]) if el else None
-                    if k is None or au.guards(s, stop=lp):
+                    if k is None or _data_guards(V, s, lp):
                         und.append("a store of a weight is not read as an unconditional store at slot 2*e+k of a loop over the edges")
                     else:
                         sl[k] = au.norm(b.resolve(vv, at=s, keep=(el[0],)))
@@ -903,7 +957,10 @@ def s3_adjacency(ctx):
             for nm, v in sym.split_assign(s):
                 if nm != d:
                     continue
-                vl = _value_layout(b.resolve(v, at=s))
+                rv = b.resolve(v, at=s)
+                if isinstance(rv, ast.IfExp) and all(isinstance(x, ast.Call) and au.call_tail(x) in ("ones", "zeros", "empty", "full") for x in (rv.body, rv.orelse)):
+                    continue        # allocation chosen by an option: constant weights or filled by stores
+                vl = _value_layout(rv)
                 if vl is not None:
                     if vl[0] != "const":
                         kinds.add(vl[0])
@@ -936,28 +993,40 @@ def s3_adjacency(ctx):
         loop, paths = us[0]
         el = _edge_loop(F, loop)
         paths = [p for p in paths if p.entries]
-        if el and len(el[1]) == 2 and len(paths) == 1 and not paths[0].conds and not paths[0].unclear:
-            emits = paths[0].entries
-            by_row = {au.src(e.row): e for e in emits}
-            if len(emits) == 2 and set(by_row) == set(el[1]) and all(au.src(e.col) == el[0] for e in emits):
-                orig = b.resolve(by_row[el[1][0]].val, at=by_row[el[1][0]].node)
-                dest = b.resolve(by_row[el[1][1]].val, at=by_row[el[1][1]].node)
-                if isinstance(orig, ast.IfExp):
-                    t, pol = au.strip_not(orig.test)
-                    neg, pos = (orig.body, orig.orelse) if pol else (orig.orelse, orig.body)
-                    if isinstance(t, ast.Name) and t.id == "oriented":
-                        ok = au.const(dest) == 1 and au.const(neg) == -1 and au.const(pos) == 1
-                        why = f"origin coefficient `{au.src(orig)}`, arrival coefficient `{au.src(dest)}`"
-                elif isinstance(dest, ast.IfExp) and au.const(orig) is not None:
-                    ok, why = False, "the coefficient depending on `oriented` is given to the arrival vertex, the origin gets a constant"
-                elif au.const(orig) is not None and au.const(dest) is not None:
-                    ok, why = False, f"origin coefficient {au.src(orig)} does not depend on `oriented`"
-            elif len(emits) == 2 and all(au.src(e.col) == el[0] for e in emits) and set(by_row) <= set(el[1]):
-                ok, why = False, f"the two entries of an edge are stored in the row(s) {sorted(by_row)}, not one per endpoint"
-            elif len(emits) != 2:
-                ok, why = False, f"{len(emits)} entries per edge"
-            elif not all(au.src(e.col) == el[0] for e in emits):
-                ok, why = False, "an entry is not stored in the column of the edge"
+        only_option = all(isinstance(au.strip_not(t)[0], ast.Name) and au.strip_not(t)[0].id == "oriented" for p in paths for t, _ in p.conds)
+        if el and len(el[1]) == 2 and paths and only_option and not any(p.unclear for p in paths):
+            verdicts = []
+            for p in paths:
+                emits = p.entries
+                known = {au.strip_not(t)[0].id: (pol == au.strip_not(t)[1]) for t, pol in p.conds}
+                by_row = {au.src(e.row): e for e in emits}
+                if len(emits) == 2 and set(by_row) == set(el[1]) and all(au.src(e.col) == el[0] for e in emits):
+                    orig = _component(V, b.resolve(by_row[el[1][0]].val, at=by_row[el[1][0]].node))
+                    dest = _component(V, b.resolve(by_row[el[1][1]].val, at=by_row[el[1][1]].node))
+                    for oriented in ([known["oriented"]] if "oriented" in known else [True, False]):
+                        o, d = au.const(_specialise(orig, {"oriented": oriented})), au.const(_specialise(dest, {"oriented": oriented}))
+                        if o is None or d is None:
+                            verdicts.append(None)
+                        else:
+                            good = d == 1 and o == (-1 if oriented else 1)
+                            verdicts.append(good)
+                            if not good:
+                                why = f"with oriented={oriented} the origin gets {o} and the arrival {d}"
+                elif len(emits) == 2 and all(au.src(e.col) == el[0] for e in emits) and set(by_row) <= set(el[1]):
+                    verdicts.append(False)
+                    why = f"the two entries of an edge are stored in the row(s) {sorted(by_row)}, not one per endpoint"
+                elif len(emits) != 2:
+                    verdicts.append(False)
+                    why = f"{len(emits)} entries per edge"
+                elif not all(au.src(e.col) == el[0] for e in emits):
+                    verdicts.append(False)
+                    why = "an entry is not stored in the column of the edge"
+                else:
+                    verdicts.append(None)
+            if verdicts and None not in verdicts:
+                ok = all(verdicts)
+            elif False in verdicts:
+                ok = False
     if ok is None:
         ctx.undecided("C08-S3", site, "vertex_to_edge_operator: assembly of one entry per endpoint of every edge not recognised", "")
     else:
@@ -2005,7 +2074,7 @@ def n1_allocation(ctx):
                         continue
                     c = len([e for e in path.entries if e.mode == "coo"])
                     for _, lp2, sub in nested_with_entries(path):
-                        it = b.resolve(lp2.iter, at=lp2)
+                        it = b.resolve(_neighbour_loop(V, lp2)[1], at=lp2)
                         per = {len(q.entries) for q in sub if not q.stop} or {0}
                         if isinstance(it, ast.Call) and au.call_tail(it) == "vertex_to_vertices" and len(per) == 1:
                             extra = Poly.atom("len(mesh.edges)").scale(2 * per.pop())   # handshake: sum of degrees = 2|E|
